@@ -211,13 +211,41 @@ class Parser:
         self.expect('{')
         stmts = []
         while not self.accept('}'):
-            stmts.append(self.parse_stmt())
+            st = self.parse_stmt()
+            if st[0] == 'multi':
+                stmts.extend(st[1])
+            else:
+                stmts.append(st)
         return stmts
 
     def parse_stmt(self):
         kind, val = self.peek()
         if kind == 'id' and val == 'let':
             self.next()
+            if self.peek() == ('op', '('):
+                # `let (a, b) = (e1, e2);` : all right-hand sides are evaluated before any name is bound
+                self.next()
+                names = []
+                while not self.accept(')'):
+                    self.accept('mut') if self.peek() == ('id', 'mut') else None
+                    names.append(self.next()[1])
+                    self.accept(',')
+                self.expect('=')
+                self.expect('(')
+                exprs = []
+                while not self.accept(')'):
+                    exprs.append(self.parse_expr())
+                    self.accept(',')
+                self.expect(';')
+                if len(names) != len(exprs):
+                    raise TranslationError("tuple pattern and tuple expression of different lengths")
+                Parser.tmp_counter = getattr(Parser, 'tmp_counter', 0)
+                tmps = []
+                for _ in names:
+                    Parser.tmp_counter += 1
+                    tmps.append('tup%d' % Parser.tmp_counter)
+                return ('multi', [('let', t, None, e) for t, e in zip(tmps, exprs)] +
+                                 [('let', n, None, ('path', t)) for n, t in zip(names, tmps)])
             self.accept('mut') if self.peek() == ('id', 'mut') else None
             name = self.next()[1]
             ty = None
@@ -394,6 +422,14 @@ def parse_expr_str(s):
         raise TranslationError("trailing tokens in expression %r" % s)
     return e
 
+def parse_body_str(s):
+    """statements followed by a final expression (the text between the braces of a fn body)"""
+    p = Parser(tokenize('{' + s + '}'))
+    stmts = p.parse_block()
+    if p.peek()[0] != 'eof':
+        raise TranslationError("trailing tokens in body %r" % s)
+    return stmts
+
 # ------------------------------------------------------------------------------------------------
 # Function translation
 # ------------------------------------------------------------------------------------------------
@@ -447,7 +483,9 @@ class FnTranslator:
         if k == 'path':
             name = e[1]
             if name in env:
-                return name, [], env[name]
+                # `let` bindings are inlined (see tr_block): the generated text does not depend on which
+                # temporaries the source introduces
+                return env.get('\x00val:' + name, name), [], env[name]
             v, t = self.consts.eval(e, expected)
             t = t or expected or 'i32'
             lo, hi = type_bounds(t)
@@ -629,10 +667,9 @@ class FnTranslator:
             v, ok, t = self.tr(s[3], env, hint)
             env2 = dict(env)
             env2[s[1]] = t
+            env2['\x00val:' + s[1]] = v if re.match(r'^[\w.]+$|^\(.*\)$', v) else '(%s)' % v
             bv, bok, bt = self.tr_block(rest, env2, expected)
-            val = '(let %s := %s; %s)' % (s[1], v, bv)
-            okv = ok + (['(let %s := %s; %s)' % (s[1], v, self.conj(bok))] if bok else [])
-            return val, okv, bt
+            return bv, ok + bok, bt
         if k == 'expr' and s[1][0] == 'if' and s[1][3] is None and rest:
             # `if c { return X; }` followed by more statements
             cv, cok, _ = self.tr(s[1][1], env, 'bool')
@@ -844,13 +881,15 @@ def gen_clip(repo):
     if not m:
         raise TranslationError("Normalizer16::clip not found")
     body = m.group(1)
-    mi = re.search(r'let index = (.*?);', body)
+    body = re.sub(r'//[^\n]*', '', body)
+    mi = re.search(r'^(.*?)let index = (.*?);', body, re.S)
     ma = re.search(r'debug_assert!\(\((\d+)\.\.=(\d+)\)\.contains\(&index\)\);', body)
     mg = re.search(r'\*CLIP8_LOOKUPS\.get_unchecked\(index\)', body)
     if not (mi and mg):
         raise TranslationError("Normalizer16::clip body shape changed")
     tr = FnTranslator(env, self_fields={'precision': ('precision', 'u8')})
-    v, ok, t = tr.tr(parse_expr_str(mi.group(1)), {'v': 'i32'}, 'usize')
+    # temporaries introduced before `let index = ...;` are part of the index expression
+    v, ok, t = tr.tr_block(parse_body_str(mi.group(1) + mi.group(2)), {'v': 'i32'}, 'usize')
     out += emit_fn('clip16_index', [('v', 'i32'), ('precision', 'u8')], v, ok, t,
                    f + ': index expression of Normalizer16::clip')
     out += '/-- %s: range asserted by debug_assert! in Normalizer16::clip (none: no assertion) -/\n' % f
@@ -962,7 +1001,7 @@ def gen_pixels(repo):
             body2 = '(self >> 8) as u8'
         body2 = re.sub(r'\bself\b', 'x', body2)
         tr = FnTranslator(env)
-        v, ok, t = tr.tr(parse_expr_str(body2), {'x': srct}, dst)
+        v, ok, t = tr.tr_block(parse_body_str(body2), {'x': srct}, dst)
         if t != dst:
             raise TranslationError("%s: type %s" % (name, t))
         out += emit_fn(name, [('x', srct)], v, ok, t, '%s: impl IntoPixelComponent<%s> for %s  { %s }'
